@@ -17,12 +17,16 @@ import (
 	"github.com/julienschmidt/httprouter"
 	"github.com/ory/x/networkx"
 
+	"github.com/ory/keto/internal/check"
 	"github.com/ory/keto/internal/driver"
 	"github.com/ory/keto/internal/driver/config"
+	"github.com/ory/keto/internal/expand"
 	"github.com/ory/keto/internal/namespace"
+	"github.com/ory/keto/internal/namespace/namespacehandler"
 	"github.com/ory/keto/internal/persistence"
 	ksql "github.com/ory/keto/internal/persistence/sql"
 	"github.com/ory/keto/internal/relationtuple"
+	"github.com/ory/keto/internal/schema"
 	"github.com/ory/keto/internal/x"
 	rts "github.com/ory/keto/proto/ory/keto/relation_tuples/v1alpha2"
 )
@@ -56,6 +60,9 @@ func (d *stNetDeps) Persister() persistence.Persister             { return d.p }
 func (d *stNetDeps) NetworkID(ctx context.Context) uuid.UUID      { return d.p.NetworkID(ctx) }
 func (d *stNetDeps) Mapper() *relationtuple.Mapper                { return d.m }
 func (d *stNetDeps) ReadOnlyMapper() *relationtuple.Mapper        { return d.rom }
+func (d *stNetDeps) Traverser() relationtuple.Traverser           { return ksql.NewTraverser(d.p) }
+func (d *stNetDeps) PermissionEngine() *check.Engine              { return check.NewEngine(d) }
+func (d *stNetDeps) ExpandEngine() *expand.Engine                 { return expand.NewEngine(d) }
 func (d *stNetDeps) Transactor() interface {
 	Transaction(ctx context.Context, f func(ctx context.Context) error) error
 } {
@@ -68,6 +75,7 @@ type stNet struct {
 	p           *ksql.Persister
 	h           stRTHandler
 	write, read http.Handler
+	rh          *stReadHandlers // check / expand / namespaces / syntax of this network
 }
 
 type stEnv struct {
@@ -97,23 +105,15 @@ func newStEnv(t *testing.T, o *Out, extraNets int) *stEnv {
 	reg := driver.NewSqliteTestRegistry(t, false)
 	quiet(reg)
 	e := &stEnv{t: t, o: o, ctx: ctx, reg: reg, verbose: os.Getenv("VERIF_STORE_VERBOSE") == "1"}
-	e.cfg = []string{"files", "groups", "Users", "a b:c"}
-	nss := make([]*namespace.Namespace, len(e.cfg))
-	for i, n := range e.cfg {
-		nss[i] = &namespace.Namespace{Name: n}
-	}
-	if err := reg.Config(ctx).Set(config.KeyNamespaces, nss); err != nil {
-		t.Fatalf("store: set namespaces: %v", err)
-	}
-	if _, err := reg.Config(ctx).NamespaceManager(); err != nil {
-		t.Fatalf("store: namespace manager: %v", err)
-	}
+	e.setCfg(stDefaultCfg)
 	p0, ok := reg.Persister().(*ksql.Persister)
 	if !ok {
 		t.Fatalf("store: persister is %T", reg.Persister())
 	}
 	e.nets = append(e.nets, &stNet{idx: 0, nid: p0.NetworkID(ctx), p: p0, h: relationtuple.NewHandler(reg),
-		write: reg.WriteRouter(ctx), read: reg.ReadRouter(ctx)})
+		write: reg.WriteRouter(ctx), read: reg.ReadRouter(ctx),
+		rh: &stReadHandlers{check: check.NewHandler(reg), expand: expand.NewHandler(reg),
+			ns: namespacehandler.New(reg), schema: schema.NewHandler(reg)}})
 	e.syntax = reg.OPLSyntaxRouter(ctx)
 	for k := 1; k <= extraNets; k++ {
 		n := networkx.NewNetwork()
@@ -135,7 +135,12 @@ func newStEnv(t *testing.T, o *Out, extraNets int) *stEnv {
 		wr, rr := httprouter.New(), httprouter.New()
 		h.RegisterWriteRoutes(&x.WriteRouter{Router: wr})
 		h.RegisterReadRoutes(&x.ReadRouter{Router: rr})
-		e.nets = append(e.nets, &stNet{idx: k, nid: n.ID, p: p, h: h, write: wr, read: rr})
+		ch, eh, nh := check.NewHandler(deps), expand.NewHandler(deps), namespacehandler.New(deps)
+		ch.RegisterReadRoutes(&x.ReadRouter{Router: rr})
+		eh.RegisterReadRoutes(&x.ReadRouter{Router: rr})
+		nh.RegisterReadRoutes(&x.ReadRouter{Router: rr})
+		e.nets = append(e.nets, &stNet{idx: k, nid: n.ID, p: p, h: h, write: wr, read: rr,
+			rh: &stReadHandlers{check: ch, expand: eh, ns: nh, schema: schema.NewHandler(deps)}})
 	}
 	e.tupCols = e.quoteExpr("keto_relation_tuples")
 	e.mapCols = e.quoteExpr("keto_uuid_mappings")
@@ -148,6 +153,26 @@ func newStEnv(t *testing.T, o *Out, extraNets int) *stEnv {
 	}
 	sort.Strings(e.others)
 	return e
+}
+
+var stDefaultCfg = []string{"files", "groups", "Users", "a b:c"}
+
+// setCfg configures the namespaces (costs ~10 ms: only when the list changes).
+func (e *stEnv) setCfg(names []string) {
+	if strings.Join(names, "\x00") == strings.Join(e.cfg, "\x00") && e.cfg != nil {
+		return
+	}
+	nss := make([]*namespace.Namespace, len(names))
+	for i, n := range names {
+		nss[i] = &namespace.Namespace{Name: n}
+	}
+	if err := e.reg.Config(e.ctx).Set(config.KeyNamespaces, nss); err != nil {
+		e.t.Fatalf("store: set namespaces: %v", err)
+	}
+	if _, err := e.reg.Config(e.ctx).NamespaceManager(); err != nil {
+		e.t.Fatalf("store: namespace manager: %v", err)
+	}
+	e.cfg = append([]string{}, names...)
 }
 
 func (e *stEnv) must(err error) {
